@@ -59,6 +59,29 @@ def handle (op : String) (args : List String) (impl : Impl) : Option Ans :=
       | some x, _ => ("ok " ++ showEp x, "differs")
       | none, _ => ("unmodelled", "unmodelled")
     pure { model := mstr, spec := sp, branch := "dyn_to:" ++ e.ts.name ++ ">" ++ ts.name ++ ":" ++ note }
+  | "ediff9", [a, b] => do
+    -- C04, all nine scales: "the difference of two epochs is measured in the time scale of the left operand
+    -- after re-expressing the right operand in it" — judged against the implementation's OWN re-expression
+    -- (second observable), so the clause is independent of the float model; what the re-expression must be
+    -- is C05/C06/C07's business
+    let a ← parseEp? a; let b ← parseEp? b
+    let sp := match impl with
+      | .ok [r, c] => (match parseDur? r, parseEp? c with
+          | some r, some c => verdict [("reexpressed_in_left_scale", c.ts == a.ts), ("canonical", scanon r),
+                                        ("difference_of_elapsed_times", sval r == clampD (sval a.dur - sval c.dur))]
+          | _, _ => "FAIL:decode")
+      | .other w => "FAIL:" ++ w
+      | _ => "FAIL:decode"
+    let m := toTimeScaleF b a.ts
+    let (mstr, note) := match m, impl with
+      | some x, .ok [_, c] => (match parseEp? c with
+          | some c => if x == c then ("ok " ++ showDur (Dur.sub a.dur x.dur) ++ " " ++ showEp x, "bit_equal")
+                      else if x.ts == c.ts && within (sval x.dur - sval c.dur) 1 then ("ok " ++ showDur (Dur.sub a.dur c.dur) ++ " " ++ showEp c, "within_1ns")
+                      else ("ok " ++ showDur (Dur.sub a.dur x.dur) ++ " " ++ showEp x, "differs")
+          | none => ("ok " ++ showDur (Dur.sub a.dur x.dur) ++ " " ++ showEp x, "differs"))
+      | some x, _ => ("ok " ++ showDur (Dur.sub a.dur x.dur) ++ " " ++ showEp x, "differs")
+      | none, _ => ("unmodelled", "unmodelled")
+    pure { model := mstr, spec := sp, branch := "ediff9:" ++ a.ts.name ++ "-" ++ b.ts.name ++ ":" ++ note }
   | "dyn_rt", [e, ts] => do
     let e ← parseEp? e; let ts ← TS.ofString? ts
     let m := (toTimeScaleF e ts).bind (fun x => toTimeScaleF x e.ts)
